@@ -422,7 +422,8 @@ struct TcpEngine : Engine {
         // each side's packets in emission order (FIFO), ACK packets may be lost (capture loss) or duplicated
         w.net.tap_fifo = true; w.net.tap_jit = 0; w.net.tap_loss = cfg.chance(0.7) ? cfg.unit() * 0.6 : 0; w.net.tap_dup = cfg.chance(0.3) ? cfg.unit() * 0.2 : 0;
         p.cfg.set("loss", fmt("%.3f", w.net.loss)).set("dup", fmt("%.3f", w.net.dup)).set("jit", w.net.jit).set("ackloss", fmt("%.3f", w.net.tap_loss));
-        p.cfg.set("nblocks", c.tsopt ? 3 : 4).set("embedded", 0);
+        // the same tracker as the application usually meets it: embedded in a Flow (optionally one that was told to ignore data packets)
+        { Rng fr = root.fork("flowtrk"); p.cfg.set("nblocks", c.tsopt ? 3 : 4).set("embedded", c.handshake && fr.chance(0.5) ? (int64_t)fr.range(1, 2) : 0); }
         ConnSim sim(w, c, root.fork("conn").next()); sim.start(); w.q.run(INT64_MAX, 400000);
         finish_tap(w, true);
         p.cfg.set("simus", w.q.now);
@@ -444,11 +445,25 @@ struct TcpEngine : Engine {
         const size_t MARGIN = 64;
         for (int d = 0; d < 2; ++d) { m[d].base = c.isn[1 - d] + 1; m[d].A = m[d].base; m[d].S.assign(c.data[1 - d].size() + MARGIN, false); m[d].started = false; trk[d].reset(new Tins::TCPIP::AckTracker(m[d].base, true)); }
         uint64_t sig = 0xC19; bool saw_sack = false, edge = false; int idx = -1; int64_t last_t = 0;
+        // embedded form: one Flow per direction with ACK tracking on, fed every frame its side sends (handshake included). Once the flow is
+        // established - its side's SYN / SYN-ACK, then a plain ACK - the embedded tracker must agree with the stand-alone one.
+        const int embedded = (int)p.cfg.num("embedded", 0); std::unique_ptr<Tins::TCPIP::Flow> efl[2]; int est[2] = { 0, 0 };   // 0 nothing seen, 1 SYN seen, 2 established, -1 never judged
+        if (embedded) for (int d = 0; d < 2; ++d) {
+            if (c.addr[0].is6()) efl[d].reset(new Tins::TCPIP::Flow(Tins::IPv6Address(c.addr[1 - d].b), c.port[1 - d], 0));
+            else efl[d].reset(new Tins::TCPIP::Flow(Tins::IPv4Address(Tins::Endian::be_to_host(get32(c.addr[1 - d].b))), c.port[1 - d], 0));
+            efl[d]->enable_ack_tracking(); if (embedded == 2) efl[d]->ignore_data_packets();
+        }
         for (auto& sl : p.steps) {
             ++idx; KV k(sl); Bytes frame = k.bytes("f"); last_t = k.num("t");
             Decoded d = decode_eth(frame); if (!d.is_tcp) continue;
-            if (!(d.tcp.flags & TH_ACK) || (d.tcp.flags & (TH_SYN | TH_RST))) continue;      // handshake packets do not belong to the ACK history
             int dir = (d.src == c.addr[0] && d.tcp.sport == c.port[0]) ? 0 : 1;
+            if (embedded) {
+                std::unique_ptr<Tins::PDU> fp(parse(frame)); efl[dir]->process_packet(*fp);
+                const bool syn = d.tcp.flags & TH_SYN, finrst = d.tcp.flags & (TH_FIN | TH_RST);
+                if (est[dir] == 0) est[dir] = (syn && !finrst && ((dir == 0) == !(d.tcp.flags & TH_ACK))) ? 1 : -1;
+                else if (est[dir] == 1 && !syn) est[dir] = ((d.tcp.flags & TH_ACK) && !finrst) ? 2 : -1;
+            }
+            if (!(d.tcp.flags & TH_ACK) || (d.tcp.flags & (TH_SYN | TH_RST))) continue;      // handshake packets do not belong to the ACK history
             Model& M = m[dir];
             // ---- model B4
             uint32_t oldA = M.A;
@@ -487,6 +502,11 @@ struct TcpEngine : Engine {
                 for (uint64_t x = lo; x <= hi; ++x) { uint32_t off = (uint32_t)x - M.base; if (off >= L) return Verdict::bad("ack:sacked-set", fmt("tracker holds byte %llu outside anything the receiver SACKed", (unsigned long long)x), idx); T[off] = true; }
             }
             for (size_t i = 0; i < L; ++i) if (T[i] != M.S[i]) return Verdict::bad("ack:sacked-set", fmt("byte at stream offset %zu: tracker %s, model %s (A at offset %lld)", i, T[i] ? "SACKed" : "not SACKed", M.S[i] ? "SACKed" : "not SACKed", (long long)aoff), idx);
+            if (embedded && est[dir] == 2) {
+                const Tins::TCPIP::AckTracker& et = efl[dir]->ack_tracker(); st.inc(embedded == 2 ? "chk.embedded_tracker_ignoring_flow" : "chk.embedded_tracker");
+                if (et.ack_number() != trk[dir]->ack_number()) return Verdict::bad("ack:embedded-ack-number", fmt("tracker inside a Flow%s: ack_number()=%u, stand-alone tracker and model %u", embedded == 2 ? " that ignores data packets" : "", et.ack_number(), M.A), idx);
+                if (!(et.acked_intervals() == trk[dir]->acked_intervals())) return Verdict::bad("ack:embedded-sacked-set", fmt("tracker inside a Flow%s holds %zu SACKed intervals, stand-alone tracker %zu (or different ones)", embedded == 2 ? " that ignores data packets" : "", (size_t)et.acked_intervals().iterative_size(), (size_t)trk[dir]->acked_intervals().iterative_size()), idx);
+            }
             // abstract state: number of islands (cap 5), ack relative position class, wrap
             { int islands = 0; for (size_t i = 0; i < L; ++i) if (M.S[i] && (i == 0 || !M.S[i - 1])) ++islands; st.states.insert(mix64((uint64_t)std::min(islands, 5) * 4 + ((M.base + (uint32_t)aoff) < M.base ? 1 : 0) * 2 + (d.sack.empty() ? 0 : 1), 0xC19)); }
             // ---- queries, edge biased
